@@ -540,3 +540,109 @@ pub proof fn thm_c13_range(comps: Components, w: Seq<Factor>, k_exp: f32, area: 
         assert((ren / t) * t == ren) by(nonlinear_arith) requires t > 0real;
     }
 }
+
+// ------------------------------------------------------------------------------------------------ the outer nesting sentences
+// 0 <= RER_onst and RER_nrb <= RER (the middle one, RER_onst <= RER_nrb, is false on the current tree for buildings that export: D4)
+/// the electricity balance at k_exp = 0: the on-site delivery is non-negative, and the balance is at least the part that
+/// ren_onst_nrb counts into the nearby perimeter (the difference is the grid delivery, weighted with a non-negative factor)
+#[verifier::spinoff_prover]
+pub proof fn lemma_c13_el_parts(comps: Components, o: Seq<Factor>, k_exp: f32, lm: bool, y: EnergyPerformance)
+    requires comps_wf(comps.data@), nonneg_list(comps.data@), rv(k_exp) == 0real, c13_factors(o), cgn_added(o, y.wfactors.wdata@, comps.data@),
+             ep_carriers_ok(comps, k_exp, lm, y), c13_clear(y.balance_cr@), y.balance_cr@.contains_key(Carrier::ELECTRICIDAD),
+    ensures ({ let b = y.balance_cr@[Carrier::ELECTRICIDAD];
+               rv(b.we.del_onst.ren) >= 0real && rv(b.we.b.ren) >= rv(b.we.del_onst.ren) + rv(b.we.del_cgn.ren) - rv(b.we.exp_a.ren) }),
+{
+    let c = Carrier::ELECTRICIDAD;
+    let cs = comps.data@; let wf = y.wfactors.wdata@; let n = nsteps(cs); let b = y.balance_cr@[c];
+    reveal(bfc_post);
+    assert(bfc_post(cs, wf, c, rv(k_exp), lm, b));
+    let fa = filter_carrier(cs, c);
+    let a = Run { cs: fa, used: b.used, prod: b.prod, fm: b.f_match@, exp: b.exp, del: b.del };
+    assert(in_avail(cs, c));
+    lemma_filter_carrier(cs, c, n); lemma_nonneg_filter(cs, c);
+    assert(e_has_carrier(fa[0], c));
+    assert(run_n(a) == n) by { assert(e_vals(fa[0]).len() == n); }
+    assert(clear_run(a)) by { assert(clear_prod(b.prod.t@)); }
+    lemma_c13_flows(a, lm);
+    lemma_c13_lookup(o, wf, cs, c, Source::RED, Dest::SUMINISTRO, Step::A);
+    lemma_c13_lookup(o, wf, cs, c, Source::INSITU, Dest::SUMINISTRO, Step::A);
+    assert(nn2(fgrid(o, c)) && nn2(fp(o, c, Source::INSITU, Dest::SUMINISTRO, Step::A)));
+    let fg = fgrid(wf, c).ren; let fx = fp(wf, c, Source::INSITU, Dest::SUMINISTRO, Step::A).ren;
+    let gr = rv(b.del.grid_an); let ons = rv(b.del.onst_an);
+    assert(ons >= 0real) by { assert(0real <= esv(a, ProdSource::EL_INSITU) <= psv(a, ProdSource::EL_INSITU)); assert(0real <= esv(a, ProdSource::TERMOSOLAR) <= psv(a, ProdSource::TERMOSOLAR)); assert(0real <= esv(a, ProdSource::EAMBIENTE) <= psv(a, ProdSource::EAMBIENTE)); }
+    lemma_mul0(fx);
+    assert(ons * fx >= 0real) by(nonlinear_arith) requires ons >= 0real, fx >= 0real;
+    assert(gr * fg >= 0real) by(nonlinear_arith) requires gr >= 0real, fg >= 0real;
+    assert(r3v(b.we.del_onst) == we_del_onst(wf, c, b.del) && r3v(b.we.del_grid) == we_del_grid(wf, c, b.del));
+    assert(rv(b.we.del_onst.ren) == ons * fx);
+    assert(rv(b.we.del_grid.ren) == gr * fg);
+    // b = del - exp, exp = exp_a + 0 x exp_ab, del = del_grid + del_onst + del_cgn
+    let eab = r3v(b.we.exp_ab);
+    lemma_mul0(eab.ren);
+    assert(r3v(b.we.exp) == r3a(r3v(b.we.exp_a), r3s(0real, eab)));
+    assert(r3v(b.we.b) == r3d(r3v(b.we.del), r3v(b.we.exp)));
+    assert(r3v(b.we.del) == r3a(r3a(r3v(b.we.del_grid), r3v(b.we.del_onst)), r3v(b.we.del_cgn)));
+}
+/// sum over the carriers minus the part inside a perimeter, when electricity is outside the perimeter and every other carrier is non-negative
+pub proof fn lemma_c13_perim(bcr: Map<Carrier, BalanceCarrier>, p: Perim, g: spec_fn(Carrier) -> real, l: Seq<Carrier>)
+    requires l.no_duplicates(),
+             forall|c: Carrier| bcr.contains_key(c) ==> #[trigger] g(c) == rv(bcr[c].we.b.ren),
+             forall|c: Carrier| bcr.contains_key(c) && c != Carrier::ELECTRICIDAD ==> #[trigger] g(c) >= 0real,
+    ensures perim_sum(bcr, p, l) >= 0real,
+            csum(bcr.dom(), g, l) - perim_sum(bcr, p, l) >= (if bcr.contains_key(Carrier::ELECTRICIDAD) && l.contains(Carrier::ELECTRICIDAD) { g(Carrier::ELECTRICIDAD) } else { 0real }),
+    decreases l.len(),
+{
+    let k = Carrier::ELECTRICIDAD;
+    if l.len() > 0 {
+        let l0 = l.drop_last(); let z = l.last();
+        assert(l0.no_duplicates()) by { assert forall|i: int, j: int| 0 <= i < l0.len() && 0 <= j < l0.len() && i != j implies l0[i] != l0[j] by { assert(l0[i] == l[i] && l0[j] == l[j]); } }
+        lemma_c13_perim(bcr, p, g, l0);
+        if z == k {
+            assert(!l0.contains(k)) by { if l0.contains(k) { let i = choose|i: int| 0 <= i < l0.len() && l0[i] == k; assert(l[i] == k && l[l.len() - 1] == k); } }
+            assert(l.contains(k)) by { assert(l[l.len() - 1] == k); }
+            assert(perim_term(bcr, p, z) == 0real);
+        } else {
+            assert(l.contains(k) == l0.contains(k)) by {
+                if l.contains(k) { let i = choose|i: int| 0 <= i < l.len() && l[i] == k; assert(i < l.len() - 1); assert(l0[i] == k); }
+                if l0.contains(k) { let i = choose|i: int| 0 <= i < l0.len() && l0[i] == k; assert(l[i] == k); }
+            }
+            if bcr.contains_key(z) { assert(g(z) == rv(bcr[z].we.b.ren) && g(z) >= 0real); }
+        }
+    }
+}
+/// C13 (outer nesting sentences) at the public entry point, hypotheses of thm_c13_range: 0 <= RER_onst and RER_nrb <= RER
+pub proof fn thm_c13_outer(comps: Components, w: Seq<Factor>, k_exp: f32, area: f32, lm: bool, r: Result<EnergyPerformance>)
+    requires comps_wf(comps.data@), nonneg_list(comps.data@), rv(k_exp) == 0real, c13_factors(w),
+             ep_post(comps, w, k_exp, area, lm, r), r is Ok, c13_clear(r->Ok_0.balance_cr@),
+    ensures 0real <= rv(r->Ok_0.rer_onst), rv(r->Ok_0.rer_nrb) <= rv(r->Ok_0.rer),
+{
+    let y = r->Ok_0; let cs = comps.data@; let bcr = y.balance_cr@; let wf = y.wfactors.wdata@; let el = Carrier::ELECTRICIDAD;
+    thm_c13_range(comps, w, k_exp, area, lm, r);
+    assert(ep_carriers_ok(comps, k_exp, lm, y));
+    thm_c04_totals(bcr, comps, y.balance);
+    let gx = px(c13_g(w, cs), 0);
+    let g = gsel(bcr, |q: BalanceCarrier| rv(q.we.b.ren));
+    assert forall|c: Carrier| bcr.contains_key(c) && c != el implies #[trigger] g(c) >= 0real by {
+        lemma_c13_carriers(comps, w, k_exp, lm, y, 0, c);
+        assert(c13_carrier_ok(bcr[c], wf, cs, c, 0, gx));
+        lemma_c13_lookup(w, wf, cs, c, Source::RED, Dest::SUMINISTRO, Step::A);
+        assert(nn2(fgrid(w, c)));
+        let u = rv(bcr[c].used.cgnus_an); let fg = px(fgrid(wf, c), 0);
+        assert(u * fg >= 0real) by(nonlinear_arith) requires u >= 0real, fg >= 0real;
+        lemma_mul0(gx);
+    }
+    lemma_carriers12();
+    lemma_c13_perim(bcr, Perim::Onsite, g, carriers12());
+    lemma_c13_perim(bcr, Perim::Nearby, g, carriers12());
+    let ren = rv(y.balance.we.b.ren); let nren = rv(y.balance.we.b.nren); let tot = ren + nren;
+    assert(ren == csum(bcr.dom(), g, carriers12()));
+    let p = ren_parts(bcr, rv(k_exp));
+    if bcr.contains_key(el) { lemma_c13_el_parts(comps, w, k_exp, lm, y); assert(g(el) == rv(bcr[el].we.b.ren)); }
+    assert(p.0 >= 0real);
+    assert(p.1 <= ren) by { lemma_mul0(el_ren(bcr, 2)); assert((1real - 0real) * el_ren(bcr, 2) == el_ren(bcr, 2)) by(nonlinear_arith); }
+    if tot > 0real {
+        assert(p.0 / tot >= 0real) by(nonlinear_arith) requires p.0 >= 0real, tot > 0real;
+        assert(p.1 / tot <= ren / tot) by(nonlinear_arith) requires p.1 <= ren, tot > 0real;
+        assert(rv(y.rer) == ren / tot);
+    }
+}
